@@ -68,6 +68,8 @@ G26 == ev.e = "Cancel" /\ ev.stage = "sending" /\ (\E h \in wr : ~conn[h.c].h2 /
 G27 == ev.e = "Issue" /\ now > 0 /\ co[ev.r].h.c = 0 /\ \E c \in Dial : conn[c].st = "open" /\ ~conn[c].busy /\ Live(c) = 0
 G28 == ev.e = "Issue" /\ now > 0 /\ co[ev.r].h.c # 0 /\ \E c \in Dial : conn[c].st = "open" /\ Live(c) = 0
 G29 == ev.e = "Issue" /\ now > 0 /\ co[ev.r].h.c # 0 /\ Len(idle[ev.o]) >= 1
+G32 == ev.e = "Issue" /\ now > 0 /\ co[ev.r].h.c = 0 /\ \E c \in Dial : conn[c].h2 /\ conn[c].st = "open" /\ IdleOf(c) = {}
+G33 == ev.e = "Issue" /\ now > 0 /\ co[ev.r].h.c # 0 /\ conn[co[ev.r].h.c].h2
 \* the pool is dropped
 G30 == ev.e = "DropPool" /\ ReleasedStandby
 G31 == ev.e = "HandBack" /\ ~cfg.alive
@@ -75,4 +77,5 @@ G31 == ev.e = "HandBack" /\ ~cfg.alive
 NotG09 == ~G09  NotG10 == ~G10  NotG11 == ~G11  NotG12 == ~G12  NotG13 == ~G13  NotG14 == ~G14  NotG15 == ~G15  NotG16 == ~G16
 NotG17 == ~G17  NotG18 == ~G18  NotG19 == ~G19  NotG20 == ~G20  NotG21 == ~G21  NotG22 == ~G22  NotG23 == ~G23  NotG24 == ~G24
 NotG25 == ~G25  NotG26 == ~G26  NotG27 == ~G27  NotG28 == ~G28  NotG29 == ~G29  NotG30 == ~G30  NotG31 == ~G31
+NotG32 == ~G32  NotG33 == ~G33
 =============================================================================
